@@ -10,6 +10,17 @@ CLAIMED = {
    ref="DESIGN.md §5 C05"),
 }
 
+CLAIMED["C04"] = dict(
+   text="Bounded model checking of the real RollCommon / RollCoC / RollFate SSA with every die a symbolic value (Roll replaced by the contract C05 establishes): for all sides, keep/drop counts, min/max clamps (64-bit symbols) and all dice outcomes, the dice shown in the detail text are exactly the rolled (clamped) dice, the kept count follows the rule, kept dice are the extreme ones and the total is the sum of the kept dice; CoC result equals the best/worst candidate of the shown digits. The detail text is handled as a symbolic rope and parsed by the oracle.",
+   note="times <= 3 (quick) / 4 (thorough), CoC extra dice <= 2/3, magnitudes <= 2^40 so the true sum cannot overflow, min<=max when both given. WoD and Double Cross round loops and the VM-level parameter validation are covered by the C01/C07 harnesses only as far as stated there. Trusted: Roll contract (C05), gosymx rope model of fmt/strconv, solvers.",
+   technique="symbolic execution of go/ssa + SMT (wrapped-Int LIA), function summary for Roll",
+   ref="DESIGN.md §5 C04")
+CLAIMED["C15"] = dict(
+   text="Bounded model checking (2-safety style): RollCommon, RollCoC and RollFate are executed under modes -1, 0, +1 with identical symbolic parameters; for all parameter values and all dice outcomes min <= random <= max is discharged by SMT, the XdY bounds are shown to be attained by all-lowest / all-highest faces, and modes +-1 are shown to consume no generator output.",
+   note="Same bounds as C04. Known finding recorded: CoC penalty dice in min-mode are not a lower bound (known_findings.json). Sums/products of terms through the VM are not yet covered.",
+   technique="symbolic execution of go/ssa + SMT, three-run relational harness",
+   ref="DESIGN.md §5 C15")
+
 NA = {
 }
 
